@@ -18,14 +18,33 @@ import traceback
 from harness.lib import client_common as CC
 
 
-def monitor(model, sim):
-    """-> (messages of the C20 monitor on the real trace, unparsable trace lines)"""
-    tl = sim.trace_lines() + ["mon-c20"]
-    got = model("client", tl)
+def verdict(tl, got):
     bad = [l for l, g in zip(tl[:-1], got[:-1]) if g == ["bad-op"]]
     v = got[-1]
     msgs = [] if v == ["ok"] else (v[0][5:].split(" ; ") if v and v[0].startswith("fail ") else [repr(v)])
     return msgs, bad
+
+
+def monitor(model, sim):
+    """-> (messages of the C20 monitor on the real trace, unparsable trace lines)"""
+    tl = sim.trace_lines() + ["mon-c20"]
+    return verdict(tl, model("client", tl))
+
+
+def monitor_many(model, sims):
+    """`monitor` for several runs with ONE driver process (every trace starts with the `cfg` line, which resets the
+    driver's recorded trace; starting the process costs far more than evaluating one trace).  If the batched call
+    fails: one call per run, whose exception the caller sees."""
+    tls = [sim.trace_lines() + ["mon-c20"] for sim in sims]
+    try:
+        got = model("client", [l for tl in tls for l in tl]) if tls else []
+    except Exception:
+        return [monitor(model, sim) for sim in sims]
+    out, off = [], 0
+    for tl in tls:
+        out.append(verdict(tl, got[off:off + len(tl)]))
+        off += len(tl)
+    return out
 
 
 def gen_queue(rng, cfg):
@@ -167,12 +186,22 @@ def shrink(model, scn, key, budget=60):
     return {"cfg": scn["cfg"], "cmds": cur, "focus": "c20"}
 
 
-def stage(ctx, res, n, kind, timeout_s):
-    from harness.props.c07 import slug
-    CC.quiet()
-    rng = random.Random(ctx.rng.randrange(1 << 30))
+def judged_runs(ctx, res, rng, n, kind, timeout_s, batch=40):
+    """generate up to n runs; yield (scenario, sim, monitor messages, unparsable trace lines) in generation order, the
+    monitor evaluated for `batch` runs per driver process"""
     t0 = time.time()
-    done = nested = 0
+    pend = []
+
+    def flush():
+        try:
+            judged = monitor_many(ctx.model, [sim for _, sim in pend])
+        except Exception:
+            res.disagreements.append({"component": "client-beyond", "what": "monitor evaluation crashed", "trace": traceback.format_exc()[-1200:]})
+            return None
+        out = [(scn, sim, msgs, bad) for (scn, sim), (msgs, bad) in zip(pend, judged)]
+        del pend[:]
+        return out
+
     for _ in range(n):
         if time.time() - t0 > timeout_s:
             break
@@ -182,12 +211,35 @@ def stage(ctx, res, n, kind, timeout_s):
             res.disagreements.append({"component": "client-beyond", "what": "harness/scenario crashed (%s)" % kind, "trace": traceback.format_exc()[-1200:]})
             break
         run.dispose()
-        sim = run.sim
-        try:
-            msgs, bad = monitor(ctx.model, sim)
-        except Exception:
-            res.disagreements.append({"component": "client-beyond", "what": "monitor evaluation crashed", "trace": traceback.format_exc()[-1200:]})
-            break
+        pend.append((scn, run.sim))
+        if len(pend) >= batch:
+            got = flush()
+            if got is None:
+                return
+            yield from got
+    yield from flush() or []
+
+
+REFRESH_CLOSE_RULES = ("close-deferred-fired-before-the-last-broker-client-had-gone", "metadata-survives-close")
+
+
+def closed_inside_refresh_close(sim):
+    """the first close() was called from inside a callback (the step was split) and, in the same step before it, the
+    client had told a broker client to close: _close_brokerclients() was on the stack when the callback closed the client"""
+    if not sim.nested_close:
+        return False
+    for i, st in enumerate(sim.steps):
+        if st["line"].startswith("close "):
+            return i > 0 and not sim.steps[i - 1]["line"].startswith("close ") and any(o.startswith("bcClose ") for o in sim.steps[i - 1]["obs"])
+    return False
+
+
+def stage(ctx, res, n, kind, timeout_s):
+    from harness.props.c07 import slug
+    CC.quiet()
+    rng = random.Random(ctx.rng.randrange(1 << 30))
+    done = nested = 0
+    for scn, sim, msgs, bad in judged_runs(ctx, res, rng, n, kind, timeout_s):
         done += 1
         res.evaluations += 1
         if sim.nested_close:
@@ -204,8 +256,13 @@ def stage(ctx, res, n, kind, timeout_s):
             # an operation whose (successful) result was already being delivered by the same event when a sibling
             # callback closed the client (two waiters of one coordinator look-up, …) is not "in progress at close"
             msgs = [m for m in msgs if "completed successfully after close" not in m]
+        # close() called from a callback that ran INSIDE _close_brokerclients() of a metadata refresh (a broker client's
+        # close() errbacks a request, the user's callback closes the client): known finding, tagged apart so that any other
+        # violation of the same rules is still reported
+        inside = kind == "reentrant" and closed_inside_refresh_close(sim)
         for key in sorted(set(slug(m) for m in msgs)):
-            tag = "c20-" + key
+            # the two rules that situation is known to break (known_findings.json); every other rule keeps its plain tag
+            tag = ("c20-reentrant-close-inside-refresh-close-" if inside and key in REFRESH_CLOSE_RULES else "c20-") + key
             if sum(1 for f in res.monitor_failures if f["tags"] == [tag]) >= 3:
                 continue
             text = next(m for m in msgs if slug(m) == key)
